@@ -687,9 +687,15 @@ Definition epub_r_table (g : list (list str)) : list event :=
    renderings the code applies to it recorded next to it *)
 Record xcell := { xc_val : val;            (* the Python value; dates/times are VOther *)
                   xc_str : str;            (* str(value) *)
-                  xc_iso : option str }.   (* value.isoformat() when it is a date/datetime/time *)
-Definition xnone : xcell := {| xc_val := VNone; xc_str := s "None"; xc_iso := None |}.
-Definition xstr (t : str) : xcell := {| xc_val := VStr t; xc_str := t; xc_iso := None |}.
+                  xc_conv : option str }.  (* the JSON-safe string _get_cell_value replaces the value with:
+                                              value.isoformat() for date/datetime/time, str(value) for a
+                                              timedelta (duration cell, e.g. "1:02:00"); None for every other type *)
+Definition xnone : xcell := {| xc_val := VNone; xc_str := s "None"; xc_conv := None |}.
+Definition xstr (t : str) : xcell := {| xc_val := VStr t; xc_str := t; xc_conv := None |}.
+(* a date/datetime/time cell: Python object token, str(value), value.isoformat() *)
+Definition xdate (tok strf iso : str) : xcell := {| xc_val := VOther tok; xc_str := strf; xc_conv := Some iso |}.
+(* a duration cell (datetime.timedelta): the conversion is str(value) itself *)
+Definition xdur (tok strf : str) : xcell := {| xc_val := VOther tok; xc_str := strf; xc_conv := Some strf |}.
 
 Definition x_non_empty (is_ws : N -> bool) (c : xcell) : bool :=
   match xc_val c with VNone => false | VStr t => negb (is_nil (strip is_ws t)) | _ => true end.
@@ -697,7 +703,7 @@ Definition x_non_empty (is_ws : N -> bool) (c : xcell) : bool :=
 Definition x_cell_value (c : xcell) : val :=
   match xc_val c with
   | VNone => VNone
-  | v => match xc_iso c with Some i => VStr i | None => v end
+  | v => match xc_conv c with Some i => VStr i | None => v end
   end.
 Definition x_trim_rows (is_ws : N -> bool) (rows : list (list xcell)) : list (list xcell) :=
   rev (dropWhile (fun r => negb (existsb (x_non_empty is_ws) r)) (rev rows)).
